@@ -3,16 +3,28 @@
    Model: CApiModel.c_call = GLUE (data: Generated_cinter.wrappers, transcribed from src/cinter/splinetable.cpp by
    tools/translators/cinter.py) around ObjModel.cpp_step (C20's C++ object model).
 
-   NOT proved (DESIGN §4 C18 asks for it):
-     C18_balanced_full : … -> balanced (trace of the C++ objects' own allocations)
-   It needs C20_balanced / C20_invariant, which NOTES_C20.md lists as not proved.  What is proved here is the glue half
-   (C18_balanced_glue: every `new splinetable<>`, every ndsparse result, every memory-file buffer the wrappers hand out
-   is released exactly once with its size over EVERY valid call sequence, under every allocation-failure oracle and
-   every outcome of the C++ members), and that every change a wrapper makes to a C++ object is a cpp_step of its twin
-   (C18_faithful), so that the object half is exactly C20's statement about the twin history.  The object half is
-   tested: LeakSanitizer at the end of every sequence of the correspondence run. *)
-From Coq Require Import List Arith Bool String.
-From PS Require Import ObjResource ObjModel CGlue CApiModel Generated_cinter Generated_objfixes C18_Proofs.
+   Proved (proof scripts: C18_Proofs.v for the glue alone, C18_Compose.v for the composition with C20's global invariant):
+     C18_balanced            : for EVERY valid call sequence whose C++ twins satisfy C20's side conditions (wf_op), every
+                               allocation oracle of the objects (F) and of the glue (GF), every I/O oracle, every outcome:
+                               all handles / results / buffers released at the end  =>  the glue's trace AND the objects'
+                               trace are balanced, both heaps empty, no allocator error, nothing lost, every object gone,
+                               the C++ world never reached UB, no exception escaped.
+     C18_balanced_interleaved: every interleaving of the two traces (block ids kept apart by tagging) is balanced — the
+                               WHOLE allocation trace, whatever the order in time of glue and object events was.
+     C18_reachable_invariant : every state reachable through the interface satisfies  cinv = glue invariant /\ C20's Inv
+                               of the object world /\ (table->data != NULL <-> the object exists) /\ glue allocator clean.
+     C18_memory_safe         : in every such state, a valid call that respects the documented preconditions (doc_pre) is
+                               not `Crashed`, no exception escapes, the process stays alive, the invariant is kept, and
+                               the member(s) it forwards to are safe_to_call (C20's `safe`) and never UB.
+     C18_run_safe            : the same along whole sequences.
+     C18_faithful            : one-member wrappers = cpp_step of the twin;
+     C18_faithful_compound   : splinetable_init / splinetable_free / readsplinefitstable / readsplinefitstable_mem /
+                               writesplinefitstable_mem / splinetable_grideval / ndsparse_destroy = the stated composition
+                               of cpp_steps and glue allocation events (compound_spec), outcome in the C convention.
+   Everything that composes with C20 is about cfg_fixed; C20_tree_is_fixed (tree_cfg = cfg_fixed) ties it to the tree
+   (the *_tree corollaries are stated with tree_cfg and stop compiling when a fix is missing). *)
+From Coq Require Import List Arith Bool String Lia.
+From PS Require Import ObjResource ObjModel CGlue CApiModel Generated_cinter Generated_objfixes C18_Proofs C20_Invariant C18_Compose.
 Import ListNotations.
 Open Scope string_scope.
 
@@ -83,6 +95,92 @@ Theorem C18_balanced_glue : forall gt c F GF calls,
   balanced (rev (trace (gm (fst (c_run gt c F GF cstate0 calls))))).
 Proof. exact balanced_glue. Qed.
 
+(* ================================================================================================================ *)
+(* ---- composition with C20's global invariant (C18_Compose.v) ---- *)
+
+(* obligation on the working tree: every wrapper that can report a failure tests table->data before its body uses it
+   (the value-returning accessors / evaluators cannot: their documented precondition is doc_pre) *)
+Theorem C18_tree_table_checked : forallb (table_checked wrappers) all_shapes = true.
+Proof. vm_compute. reflexivity. Qed.
+
+(* every state reachable through the interface satisfies the composed invariant *)
+Theorem C18_reachable_invariant : forall kl gt F GF cs, glue_ok gt = true -> c_reach kl gt F GF cs -> cinv kl cs.
+Proof. exact reach_cinv. Qed.
+
+(* ---- balanced: the WHOLE allocation behaviour, glue and objects, of ARBITRARY valid call sequences ---- *)
+Theorem C18_balanced : forall kl gt F GF calls,
+  glue_ok gt = true ->
+  valid_sequence gt cfg_fixed F GF cstate0 calls = true ->
+  Forall (wf_call kl) calls ->
+  all_released (fst (c_run gt cfg_fixed F GF cstate0 calls)) = true ->
+  let cs := fst (c_run gt cfg_fixed F GF cstate0 calls) in
+  balanced (rev (trace (gm cs))) /\ balanced (rev (trace (wm (cw cs))))
+  /\ hp (gm cs) = [] /\ hp (wm (cw cs)) = []
+  /\ errs (gm cs) = [] /\ errs (wm (cw cs)) = []
+  /\ lost (gm cs) = [] /\ lost (wm (cw cs)) = []
+  /\ all_gone (cw cs) /\ crashed (cw cs) = false
+  /\ (forall why, ~ In (Escaped why) (snd (c_run gt cfg_fixed F GF cstate0 calls))).
+Proof. exact balanced_whole. Qed.
+
+Theorem C18_balanced_interleaved : forall kl gt F GF calls,
+  glue_ok gt = true ->
+  valid_sequence gt cfg_fixed F GF cstate0 calls = true ->
+  Forall (wf_call kl) calls ->
+  all_released (fst (c_run gt cfg_fixed F GF cstate0 calls)) = true ->
+  forall t, tmerge (rev (trace (gm (fst (c_run gt cfg_fixed F GF cstate0 calls)))))
+                   (rev (trace (wm (cw (fst (c_run gt cfg_fixed F GF cstate0 calls)))))) t -> balanced t.
+Proof. exact balanced_interleaved. Qed.
+
+(* the working tree (glue table and cfg as transcribed from the sources) *)
+Theorem C18_balanced_tree : forall kl F GF calls,
+  valid_sequence wrappers tree_cfg F GF cstate0 calls = true ->
+  Forall (wf_call kl) calls ->
+  all_released (fst (c_run wrappers tree_cfg F GF cstate0 calls)) = true ->
+  (forall t, tmerge (rev (trace (gm (fst (c_run wrappers tree_cfg F GF cstate0 calls)))))
+                    (rev (trace (wm (cw (fst (c_run wrappers tree_cfg F GF cstate0 calls)))))) t -> balanced t)
+  /\ errs (gm (fst (c_run wrappers tree_cfg F GF cstate0 calls))) = [] /\ errs (wm (cw (fst (c_run wrappers tree_cfg F GF cstate0 calls)))) = []
+  /\ lost (gm (fst (c_run wrappers tree_cfg F GF cstate0 calls))) = [] /\ lost (wm (cw (fst (c_run wrappers tree_cfg F GF cstate0 calls)))) = []
+  /\ crashed (cw (fst (c_run wrappers tree_cfg F GF cstate0 calls))) = false.
+Proof. exact balanced_tree. Qed.
+
+(* ---- memory safety of every call in every reachable state ---- *)
+Theorem C18_memory_safe : forall kl gt F GF cs call,
+  glue_ok gt = true -> forallb (table_checked gt) all_shapes = true ->
+  cinv kl cs -> dead cs = false -> valid_call cs call = true -> wf_call kl call -> doc_pre cs call = true ->
+  snd (c_call gt cfg_fixed F GF cs call) <> Crashed
+  /\ (forall why, snd (c_call gt cfg_fixed F GF cs call) <> Escaped why)
+  /\ dead (fst (c_call gt cfg_fixed F GF cs call)) = false
+  /\ cinv kl (fst (c_call gt cfg_fixed F GF cs call))
+  /\ (forall x, In x (twins (c_args call) (c_h call)) ->
+        (forall o, get_obj (cw cs) (target x) = Some o -> safe cfg_fixed o None x = true)
+        /\ snd (cpp_step cfg_fixed F (cw cs) x) <> UB).
+Proof. exact memory_safe. Qed.
+
+(* NULL arguments: a NULL pointer among those the leading check tests is refused before anything is touched (state
+   unchanged, failure value returned); which pointers are tested is C18_tree_null_checked *)
+Theorem C18_null_refused : forall c F GF cs call p,
+  dead cs = false -> inb p (c_nulls call) = true -> inb p (g_checked (glue_of wrappers (fname (c_args call)))) = true ->
+  c_call wrappers c F GF cs call = (cs, ret_of (g_check_ret (glue_of wrappers (fname (c_args call)))))
+  /\ ret_of (g_check_ret (glue_of wrappers (fname (c_args call)))) <> Crashed.
+Proof. exact null_refused_tree. Qed.
+
+Theorem C18_run_safe : forall kl gt F GF calls cs, glue_ok gt = true -> forallb (table_checked gt) all_shapes = true ->
+  cinv kl cs -> dead cs = false ->
+  valid_sequence gt cfg_fixed F GF cs calls = true -> Forall (wf_call kl) calls -> pre_sequence gt cfg_fixed F GF cs calls = true ->
+  ~ In Crashed (snd (c_run gt cfg_fixed F GF cs calls)) /\ dead (fst (c_run gt cfg_fixed F GF cs calls)) = false.
+Proof. exact c_run_safe. Qed.
+
+(* ---- faithful, compound wrappers: the call IS the stated composition (compound_spec: spec_init, spec_free, spec_read,
+        spec_readmem, spec_writemem, spec_grideval, spec_nddestroy — written with cpp_step, g_new, g_del only) ---- *)
+Theorem C18_faithful_compound : forall kl gt F GF cs call sp,
+  glue_ok gt = true -> cinv kl cs -> dead cs = false -> valid_call cs call = true -> wf_call kl call ->
+  (needs_live (c_args call) = true -> live cs (c_h call) = true) -> doc_pre cs call = true ->
+  passes gt cs call = true ->
+  compound_spec F GF cs call = Some sp ->
+  c_call gt cfg_fixed F GF cs call = (fst sp, lift (glue_of gt (fname (c_args call))) (snd sp))
+  /\ snd sp <> UB /\ snd sp <> Skipped.
+Proof. exact faithful_compound. Qed.
+
 (* ---- concrete histories ---- *)
 Definition ex_file : file := {| f_open_fails := false; f_fail := PNone; f_ndim := 1; f_orders := [2]; f_nknots := [8]; f_naxes := [5]; f_aux := [] |}.
 Definition ex_missing : file := {| f_open_fails := true; f_fail := PNone; f_ndim := 0; f_orders := []; f_nknots := []; f_naxes := []; f_aux := [] |}.
@@ -132,6 +230,90 @@ Example C18_faithful_nonvacuous :
   snd (cpp_step cfg_fixed no_fault (cw cs) (OConvolve 0 5 3)) = Failed RInvalid.
 Proof. vm_compute. auto. Qed.
 
+(* ---- the hypotheses of the composed theorems are satisfiable: init, read (memory and disk) into two handles, write_key,
+        grideval + evaluation + accessor + get_key + ndsparse_destroy, a convolution that is refused, a truncated file
+        read into a fresh and into an occupied handle, a write through the handle that read left NULL, a memory file and
+        its release, free of all three handles; without faults, and with an allocation failure injected into write_key
+        (24th allocation of the objects) and into grideval's `new ndsparse` (3rd allocation of the glue) ---- *)
+Definition ex_trunc : file := {| f_open_fails := false; f_fail := PKnotSize 0; f_ndim := 1; f_orders := [2]; f_nknots := [8]; f_naxes := [5]; f_aux := [] |}.
+Definition ex_key : auxent := {| akey := 7; aklen := 5; avlen := 9 |}.
+Definition h_compose : list ccall :=
+  [call 0 AInit; call 0 (AReadMem ex_file); call 1 (ARead ex_file); call 1 (AWriteKey false ex_key);
+   call 1 (AGrideval 0 3); call 1 AEval; call 1 (AAcc AccOrder); call 1 (AGetKey 7); call 1 (ANdDestroy 0);
+   call 1 (AConvolve 5 3); call 2 (ARead ex_trunc); call 2 (AWrite false); call 1 (ARead ex_trunc);
+   call 0 (AWriteMem 0 640 false); call 0 (ABufFree 0); call 0 AFree; call 1 AFree; call 2 AFree].
+Lemma h_compose_wf : Forall (wf_call kl5) h_compose.
+Proof. unfold h_compose. repeat constructor; cbn; try lia; try discriminate; auto. Qed.
+Example C18_balanced_nonvacuous :
+  Forall (wf_call kl5) h_compose
+  /\ valid_sequence wrappers cfg_fixed no_fault no_fault cstate0 h_compose = true
+  /\ pre_sequence wrappers cfg_fixed no_fault no_fault cstate0 h_compose = true
+  /\ all_released (fst (run0 wrappers h_compose)) = true
+  /\ snd (run0 wrappers h_compose) =
+       [RInt 0; RInt 0; RInt 0; RInt 0; RInt 0; RVal; RVal; RPtr true; RVoid; RInt 1; RInt 1; RInt 1; RInt 1; RInt 0; RVoid; RVoid; RVoid; RVoid]
+  /\ List.length (trace (gm (fst (run0 wrappers h_compose)))) = 14 /\ List.length (trace (wm (cw (fst (run0 wrappers h_compose))))) = 92
+  /\ valid_sequence wrappers cfg_fixed (fault_at 24) (fault_at 3) cstate0 h_compose = true
+  /\ pre_sequence wrappers cfg_fixed (fault_at 24) (fault_at 3) cstate0 h_compose = true
+  /\ all_released (fst (c_run wrappers cfg_fixed (fault_at 24) (fault_at 3) cstate0 h_compose)) = true
+  /\ snd (c_run wrappers cfg_fixed (fault_at 24) (fault_at 3) cstate0 h_compose) =
+       [RInt 0; RInt 0; RInt 0; RInt 1; RInt 1; RVal; RVal; RPtr false; RVoid; RInt 1; RInt 1; RInt 1; RInt 1; RInt 0; RVoid; RVoid; RVoid; RVoid].
+Proof. split; [exact h_compose_wf|]. vm_compute. repeat split; reflexivity. Qed.
+(* ... and the conclusion of C18_balanced holds for it by the theorem (not by computation) *)
+Example C18_balanced_applied : forall t,
+  tmerge (rev (trace (gm (fst (c_run wrappers cfg_fixed (fault_at 24) (fault_at 3) cstate0 h_compose)))))
+         (rev (trace (wm (cw (fst (c_run wrappers cfg_fixed (fault_at 24) (fault_at 3) cstate0 h_compose)))))) t -> balanced t.
+Proof.
+  apply (balanced_interleaved kl5 wrappers (fault_at 24) (fault_at 3) h_compose tree_glue_ok); [vm_compute; reflexivity|exact h_compose_wf|vm_compute; reflexivity].
+Qed.
+(* hypotheses of C18_memory_safe / C18_faithful_compound on a reachable state: two live handles, then grideval on handle 1 *)
+Example C18_compound_nonvacuous :
+  let pre := [call 0 AInit; call 0 (AReadMem ex_file); call 1 (ARead ex_file)] in
+  let cs := fst (run0 wrappers pre) in
+  let c := call 1 (AGrideval 0 3) in
+  c_reach kl5 wrappers no_fault no_fault cs /\ dead cs = false /\ valid_call cs c = true /\ wf_call kl5 c /\ doc_pre cs c = true
+  /\ live cs 1 = true /\ passes wrappers cs c = true
+  /\ (exists sp, compound_spec no_fault no_fault cs c = Some sp /\ snd sp = Ok /\ is_null (gget (fst sp) (p_rp 0)) = false)
+  /\ passes wrappers cs (call 1 (ARead ex_trunc)) = true
+  /\ (exists sp, compound_spec no_fault no_fault cs (call 1 (ARead ex_trunc)) = Some sp /\ snd sp = Failed RInput /\ live (fst sp) 1 = false).
+Proof.
+  cbv zeta. unfold run0. split.
+  { apply (c_run_reach kl5 wrappers no_fault no_fault _ cstate0 (cr_init _ _ _ _)); [vm_compute; reflexivity|].
+    repeat constructor; cbn; try lia; try discriminate; auto. }
+  split; [vm_compute; reflexivity|]. split; [vm_compute; reflexivity|]. split; [constructor|].
+  split; [vm_compute; reflexivity|]. split; [vm_compute; reflexivity|]. split; [vm_compute; reflexivity|].
+  split; [eexists; split; [reflexivity|vm_compute; split; reflexivity]|].
+  split; [vm_compute; reflexivity|]. eexists; split; [reflexivity|vm_compute; split; reflexivity].
+Qed.
+
+(* ---- the hypotheses are NEEDED (witnesses by computation) ---- *)
+(* wf_call (C20's wf_op), on the model: a file that passes the dimension check with ndim = 0 (fitsio.h:193 rejects it: the
+   model's input is totalised) read twice through readsplinefitstable_mem leaves lost blocks although everything is freed *)
+Theorem C18_wf_needed :
+  let h := [call 0 AInit; call 0 (AReadMem file0); call 0 (AReadMem file0); call 0 AFree] in
+  valid_sequence wrappers cfg_fixed no_fault no_fault cstate0 h = true /\ all_released (fst (run0 wrappers h)) = true
+  /\ lost (wm (cw (fst (run0 wrappers h)))) <> [] /\ balancedb (rev (trace (wm (cw (fst (run0 wrappers h)))))) = false.
+Proof. vm_compute. repeat split; discriminate. Qed.
+(* doc_pre: evaluation through a handle that a failed read left NULL, and grideval on an empty table, crash although the
+   sequence is valid (known finding C18:accessors:null-handle-deref; the C++ twin crashes identically) *)
+Theorem C18_doc_pre_needed :
+  let h1 := [call 0 (ARead ex_missing); call 0 AEval] in
+  let h2 := [call 0 AInit; call 0 (AGrideval 0 3)] in
+  valid_sequence wrappers cfg_fixed no_fault no_fault cstate0 h1 = true /\ pre_sequence wrappers cfg_fixed no_fault no_fault cstate0 h1 = false
+  /\ snd (run0 wrappers h1) = [RInt 1; Crashed]
+  /\ valid_sequence wrappers cfg_fixed no_fault no_fault cstate0 h2 = true /\ pre_sequence wrappers cfg_fixed no_fault no_fault cstate0 h2 = false
+  /\ snd (run0 wrappers h2) = [RInt 0; Crashed].
+Proof. vm_compute. repeat split; reflexivity. Qed.
+(* the table_checked obligation fails for the unchanged wrappers (writesplinefitstable did not test table->data) *)
+Theorem C18_refuted_table_checked : forallb (table_checked (orig_over wrappers)) all_shapes = false.
+Proof. vm_compute. reflexivity. Qed.
+
+Example C18_null_refused_nonvacuous :
+  let cs := fst (run0 wrappers [call 0 (ARead ex_file)]) in
+  let c := {| c_h := 0; c_nulls := ["path"]; c_args := ARead ex_file |} in
+  dead cs = false /\ live cs 0 = true /\ inb "path" (c_nulls c) = true /\ inb "path" (g_checked (glue_of wrappers (fname (c_args c)))) = true
+  /\ snd (c_call wrappers cfg_fixed no_fault no_fault cs c) = RInt 1.
+Proof. vm_compute. repeat split; reflexivity. Qed.
+
 Print Assumptions C18_tree_glue_ok.
 Print Assumptions C18_tree_null_checked.
 Print Assumptions C18_tree_forwarding.
@@ -141,6 +323,18 @@ Print Assumptions C18_faithful.
 Print Assumptions C18_failure_signalled.
 Print Assumptions C18_success_not_failure.
 Print Assumptions C18_balanced_glue.
+Print Assumptions C18_tree_table_checked.
+Print Assumptions C18_reachable_invariant.
+Print Assumptions C18_balanced.
+Print Assumptions C18_balanced_interleaved.
+Print Assumptions C18_balanced_tree.
+Print Assumptions C18_memory_safe.
+Print Assumptions C18_run_safe.
+Print Assumptions C18_null_refused.
+Print Assumptions C18_faithful_compound.
+Print Assumptions C18_wf_needed.
+Print Assumptions C18_doc_pre_needed.
+Print Assumptions C18_refuted_table_checked.
 Print Assumptions C18_refuted_destroy_leaks.
 Print Assumptions C18_refuted_convolve_escapes.
 Print Assumptions C18_refuted_gradient_escapes.
